@@ -89,6 +89,12 @@ func VerifC15Merge() {
 		put("n.x", "argx")
 		put("argonly.deep", "ad")
 		nd.Cover("command-line arguments loaded")
+		if nd.Bool() {
+			// a source added AFTER the command-line loader comes later in the sequence, like after any other loader
+			c.AddLoaders(loader.NewRawLoader([]byte("n:\n  x: afterargs\n")))
+			put("n.x", "afterargs")
+			nd.Cover("source added after the command-line loader")
+		}
 	}
 	c.AddLoaders(&vProfileLoader{c: c})
 	put("imported", "<s0>")
@@ -103,7 +109,7 @@ func VerifC15Merge() {
 	}
 	if _, ok := want["argonly.deep"]; ok {
 		sec, isMap := c.Get("n").(map[string]any)
-		nd.Assert(isMap && sec["x"] == any("argx"), "C15: a value given on the command line is part of its section like any other source's (deep merge)")
+		nd.Assert(isMap && sec["x"] == any(want["n.x"]), "C15: a value given on the command line is part of its section like any other source's (deep merge)")
 	}
 	flat := map[string]any{}
 	vFlatten("", c.Get(""), flat)
